@@ -72,6 +72,35 @@ func rulesText(rs []Rule, quoteNames, trailingComma bool) string {
 	return s
 }
 
+// rulesTextGap is rulesText with the blank run gap written at every place of the
+// top-level rule object where insignificant blanks may stand: behind the opening
+// brace, between a rule name and its colon, between the colon and the value (in
+// place of the single space), in front of every comma and of the closing brace.
+func rulesTextGap(rs []Rule, quoteNames, trailingComma bool, gap string) string {
+	if gap == "" {
+		return rulesText(rs, quoteNames, trailingComma)
+	}
+	var parts []string
+	for _, r := range rs {
+		n := r.Name
+		if quoteNames {
+			n = `"` + n + `"`
+		}
+		before := gap
+		if !quoteNames {
+			// a bare rule name ends at a space or at the colon; the language refuses a tab right
+			// behind it with a structured error (not a re-spelling): spaces only at this place
+			before = strings.ReplaceAll(gap, "\t", " ")
+		}
+		parts = append(parts, n+before+":"+gap+r.valText(quoteNames))
+	}
+	s := gap + strings.Join(parts, gap+", ")
+	if trailingComma && len(parts) > 0 {
+		s += gap + ","
+	}
+	return s + gap
+}
+
 // Prop is an object property of the example.
 type Prop struct {
 	Key      string `json:"key"` // decoded key text, or @K for a shortcut
@@ -204,6 +233,9 @@ type Spelling struct {
 	// rule object or note, in front of the closing */, and as the indentation of the body line of the
 	// three-line form. "-" stands for no blank at all. Default: one space (none in the three-line form).
 	Inner string `json:",omitempty"`
+	// RuleGap, when not "", is a run of blanks written at every place INSIDE the rule object where
+	// insignificant blanks may stand (behind "{", around every colon, in front of commas and of "}").
+	RuleGap string `json:",omitempty"`
 }
 
 var Canonical = Spelling{EOL: "\n", Indent: "  "}
@@ -253,7 +285,7 @@ func (r *renderer) annotation(n *Node) string {
 	}
 	var body string
 	if len(n.Rules) > 0 {
-		body = "{" + rulesText(n.Rules, r.sp.QuoteNames, r.sp.TrailComma) + "}"
+		body = "{" + rulesTextGap(n.Rules, r.sp.QuoteNames, r.sp.TrailComma, r.sp.RuleGap) + "}"
 		if n.Note != "" {
 			body += " - " + n.Note
 		}
